@@ -219,11 +219,12 @@ def lens_spec(draw, profile='paraxial', min_surfs=1, max_surfs=None, force_infin
     parity = 1.0
     surfs = []
     gl = glasses()
+    catadioptric = P.allow_mirror and draw(st.integers(0, 2)) == 0
     for k in range(K):
-        h = max(abs(y_m) + abs(y_c), 0.2 * semi, 0.05)
+        h = min(max(abs(y_m) + abs(y_c), 0.2 * semi, 0.05), 40.0 * semi)
         shape = draw(st.sampled_from(P.shapes))
         s = dict(type=shape, R=INF, k=0.0, coef=None, norm=None, t=0.0, mat=AIR, dx=0.0, dy=0.0, rx=0.0, ry=0.0,
-                 ap=None, coat=None, stop=False)
+                 ap=None, coat=None, stop=False, hd=h)
         iterative = shape in ('even_asphere', 'polynomial', 'chebyshev')
         flat = (not iterative) and draw(st.integers(0, 5)) == 0
         if not flat:
@@ -259,7 +260,7 @@ def lens_spec(draw, profile='paraxial', min_surfs=1, max_surfs=None, force_infin
                          for i in range(nx)]
             s['norm'] = draw(f(4.0, 10.0)) * h
         # medium behind the surface
-        is_mirror = P.allow_mirror and draw(st.integers(0, 6)) == 0
+        is_mirror = catadioptric and draw(st.integers(0, 3)) == 0
         if is_mirror:
             s['mat'] = MIRROR
         else:
@@ -310,7 +311,7 @@ def lens_spec(draw, profile='paraxial', min_surfs=1, max_surfs=None, force_infin
         if k == K - 1:
             # last gap: to the image surface; prefer near the marginal focus when there is one
             if abs(u_m) > 1e-6 and -y_m / u_m * parity > 0 and draw(st.integers(0, 3)) > 0:
-                tabs = min(abs(y_m / u_m), 1e4) * draw(f(0.7, 1.2))
+                tabs = min(abs(y_m / u_m), 3e3) * draw(f(0.7, 1.2))
             else:
                 tabs = max(tabs, 0.5 * h) * draw(f(1.0, 10.0))
         s['t'] = parity * tabs
@@ -404,6 +405,9 @@ def fit_beam(spec, rho_min, rounds=3):
                     lim = min(lim, abs(s['R']) / (1.1 * math.sqrt(1 + s['k'])))
             if s.get('norm'):
                 lim = min(lim, s['norm'] / 2.5)
+            if s['type'] != 'standard' and s.get('hd'):
+                # higher-order terms were sized for the design height hd
+                lim = min(lim, 1.25 * s['hd'])
             if h > lim:
                 fac = min(fac, lim / h)
         if fac >= 1.0:
